@@ -32,7 +32,7 @@ QUICK_FILES = ['4bitadder', 'TMR_hierarchy', 'adder', 'b13', 'basic_clock_crossi
                'unique_challenge', 'unused_blackbox', 'lc3']
 BUDGET = {  # (mechanism cases, generated designs, port-level round trips)
     'C04': {'quick': (2500, 300, 400), 'thorough': (40000, 2500, 6000)},
-    'C06': {'quick': (2500, 420, 0), 'thorough': (40000, 20000, 0)},
+    'C06': {'quick': (2500, 420, 0), 'thorough': (40000, 40000, 0)},
 }
 OPTION_SETS = [{}, {'write_blackbox': False}, {'defparam': True}, {'definition_list': 'work-modules'}]
 
@@ -428,7 +428,7 @@ def replay_file(prop, path, seed):
         print('recorded impl  :', obj['first_difference']['impl'])
         return 1
     if 'design' in obj:
-        r.replay_case({'design': obj['design'], 'id': os.path.basename(path), 'prop': prop}, 'replay')
+        r.replay_case({'design': obj['design'], 'id': os.path.basename(path), 'prop': prop, 'transform': obj.get('transform')}, 'replay')
     elif 'file' in obj:
         if prop == 'C06':
             items, _ = O.c06_file_items(obj['file'])
